@@ -185,25 +185,35 @@ TRIGGER_OF = {
 }
 
 
-def _coexist(a, b) -> bool:
+def domain_attr_has_upper(header: str) -> bool:
+    p = R.parse_set_cookie(header)
+    return p is not None and any(an == "domain" and av != av.lower() for an, av in p.attrs)
+
+
+def _coexist(a, b, blind=frozenset()) -> bool:
     """Were both in the store during some operation (inclusive: the jar removes expired cookies lazily, at the
-    end of the call that notices them)?"""
+    end of the call that notices them)?  blind: operations in which the jar does not look at its store (a response
+    from an IP host is dropped by a jar without unsafe before anything else, P-IP), so an expiry is noticed later."""
 
 
     def death(c):
         # under T_MAXAGE the jar never expires the cookie: it stays until replaced or cleared
         if c.died_epoch is None or (c.died_reason == "expired" and c.expiry_source == "expires+invalid-max-age"):
             return 1 << 60
-        return c.died_epoch
+        e = c.died_epoch
+        if c.died_reason == "expired":
+            while e in blind:
+                e += 1
+        return e
 
     return a.born_epoch <= death(b) and b.born_epoch <= death(a)
 
 
-def history_triggers(cookies, precise: bool = False) -> set:
+def history_triggers(cookies, precise: bool = False, blind=frozenset()) -> set:
     """`cookies`: every cookie the reference stored (even if it expired at once), in order.  precise=False (the
     generator): patterns over the whole history, an over-approximation.  precise=True (the classifier): the two
     cookies of a pattern must have been in the store during a common operation."""
-    co = _coexist if precise else (lambda a, b: True)
+    co = (lambda a, b: _coexist(a, b, blind)) if precise else (lambda a, b: True)
     out = set()
     by_dn: dict = {}
     for c in cookies:
@@ -312,6 +322,9 @@ class Gen:
             d, kind = d + ".", kind + "+trailing-dot"
         elif w < 0.25:
             d, kind = "." + d + ".", kind + "+both-dots"
+        if self.stratum != "clean" and r.random() < 0.04 and d.lower() != d.upper():
+            # RFC 6265 5.2.3: the Domain attribute value is converted to lower case
+            d, kind = (d.upper() if r.random() < 0.5 else d.title()), kind + "+upper-case"
         return d, kind
 
     def expiry_attrs(self):
@@ -539,6 +552,7 @@ class Exec:
         self.outcome: dict = {}  # id -> SetOutcome (latest)
         self.history: list = []  # every reference Cookie ever stored, in order
         self.lost: dict = {}  # id -> classification of how the jar lost a cookie the reference holds
+        self.blind_epochs: set = set()  # ops in which a jar without unsafe dropped an IP-host response unseen
         self.nontrivial_store = False
         self.nontrivial_sent = False
         self.what = "filter_cookies(%s)"
@@ -600,6 +614,8 @@ class Exec:
 
         url = op["url"]
         headers = op["headers"]
+        if not self.ref.ip_hosts and R.is_ip(R.split_url(url)[1]):
+            self.blind_epochs.add(i)
         if op.get("mode") == "mapping":
             # the way ClientResponse.cookies is built (client_reqrep.py) and handed to update_cookies
             sc = SimpleCookie()
@@ -684,6 +700,8 @@ class Exec:
             return "miss:stale-expiry-of-replaced-cookie"
         if k == "set":
             if self.ids.get(c.value, {}).get("op") == i:
+                if domain_attr_has_upper(self.ids[c.value]["header"]):
+                    return "miss:not-accepted:upper-case-domain-attribute"
                 return "miss:not-accepted"
             return "miss:removed-during-update"
         if k == "query":
@@ -706,7 +724,7 @@ class Exec:
         """Structural patterns of the history so far under which the listed findings arise.  A violation whose
         pattern is absent gets the suffix ':without-known-trigger' and can therefore never be matched by a listed
         mechanism (the clean stratum has none of the patterns by construction)."""
-        return history_triggers([o for o, _ in self.history], precise=True)
+        return history_triggers([o for o, _ in self.history], precise=True, blind=self.blind_epochs)
 
     # -- the oracle ----------------------------------------------------------------------------
     def judge(self, i, url, got, present=None, host_only=None):
@@ -839,6 +857,10 @@ class Exec:
             if reason == "expired":
                 return "leak:expired-cookie-sent:" + c.expiry_source, f"expired at {c.expiry} (now {CLOCK.now}), source {c.expiry_source}"
             if reason == "replaced":
+                by = self.ids.get(detail)
+                if by is not None and domain_attr_has_upper(by["header"]):
+                    # knock-on of the same defect: the replacement (or deletion) was not accepted by the jar
+                    return "leak:replaced-cookie-sent:replacement-had-upper-case-domain-attribute", f"was replaced by {detail} ({by['header']!r})"
                 return "leak:replaced-cookie-sent", f"was replaced by {detail}"
             if reason in ("cleared", "cleared-domain"):
                 return "leak:cleared-cookie-sent", f"was removed by {reason}"
